@@ -73,3 +73,57 @@ def run_equiv(prop, tier, names, only=None, family=None, workers=8):
         extra = list(ex.map(one, jobs))
     shutil.rmtree(work, ignore_errors=True)
     return extra
+
+
+def run_limb(prop, tier, names, only=None, workers=8):
+    """E2 limb-mode obligations (irsym/limb_targets.py)"""
+    work = os.path.join(VERIF, ".work", "%slimb-%d" % (prop, os.getpid()))
+    shutil.rmtree(work, ignore_errors=True)
+    os.makedirs(work)
+    lst = subprocess.run(["python3-vt", "-m", "irsym.limb_targets", "list"], cwd=VERIF, stdout=subprocess.PIPE, stderr=subprocess.PIPE)
+    try:
+        targets = json.loads(lst.stdout.decode().strip().split("\n")[-1])
+    except Exception:
+        return [vlib.ExtraResult("limb-list", "e2-limb", "inconclusive", reason="cannot list limb targets: " + lst.stderr.decode(errors="replace")[-300:])]
+    jobs = []
+    for n, cnt, ps in targets:
+        if n in names:
+            for i in range(cnt):
+                nm = "limb-%s-%s" % (n, pname(ps[i]))
+                if not only or re.search(only, nm):
+                    jobs.append((n, i, ps[i], nm))
+
+    def one(job):
+        n, i, ps, name = job
+        t0 = time.time()
+        try:
+            r = subprocess.run(["python3-vt", "-m", "irsym.limb_targets", n, str(i), work], cwd=VERIF, stdout=subprocess.PIPE, stderr=subprocess.PIPE, timeout=900)
+            d = json.loads(r.stdout.decode().strip().split("\n")[-1])
+        except Exception as e:
+            d = {"target": n, "params": ps, "status": "inconclusive", "detail": "runner: %r" % (e,)}
+        rdir, rep = None, None
+        if d["status"] == "violation":
+            rdir = os.path.join(VERIF, "replays", "%s-%s" % (prop, name))
+            shutil.rmtree(rdir, ignore_errors=True)
+            os.makedirs(rdir)
+            json.dump(d.get("assignment") or {}, open(os.path.join(rdir, "assignment.json"), "w"))
+            json.dump(d, open(os.path.join(rdir, "inputs.json"), "w"), indent=1, default=str)
+            with open(os.path.join(rdir, "run.sh"), "w") as f:
+                f.write("#!/bin/sh\n# concrete re-execution of the unit's LLVM IR (built from the current tree) on the witness input; exit 1 = claim violated\n"
+                        "cd /verif && mkdir -p .work/replay-limb && exec python3-vt -m irsym.limb_targets replay '%s' %d .work/replay-limb '%s/assignment.json'\n" % (n, i, rdir))
+            os.chmod(os.path.join(rdir, "run.sh"), 0o755)
+            if d.get("assignment"):
+                rr = subprocess.run(["sh", os.path.join(rdir, "run.sh")], stdout=subprocess.PIPE, stderr=subprocess.STDOUT)
+                rep = rr.returncode == 1
+                shutil.rmtree(os.path.join(VERIF, ".work", "replay-limb"), ignore_errors=True)
+                if not rep:
+                    d["status"], d["detail"] = "inconclusive", "witness-not-reproduced: " + rr.stdout.decode(errors="replace")[-200:]
+        info = "; ".join("%s=%s" % (k, d.get(k)) for k in ("ir_steps", "monomials", "fresh_quotients", "unintended_wraps", "z3_identity") if k in d)
+        return vlib.ExtraResult(name, "e2-limb-" + n.split("-")[0], d["status"],
+                                desc="E2 irsym limb mode: %s; %s (%s)" % (d.get("claim", n), d.get("bounds", ""), info),
+                                bounds="inputs range over the whole limb invariant (intervals stated in the description); shape %s" % ps,
+                                wall=d.get("wall_s", time.time() - t0), reason=d.get("detail", ""), replay_dir=rdir, replayed=rep, queries=2, backend="irsym-limb+z3")
+    with ThreadPoolExecutor(workers) as ex:
+        extra = list(ex.map(one, jobs))
+    shutil.rmtree(work, ignore_errors=True)
+    return extra
